@@ -496,7 +496,8 @@ def run(ctx, rep):
 
     # the writer and the reader of witness values use the same form of the value encoding (compact / padded)
     ev = F.fn(ENC + "encode_value")
-    readers = [f for f in F.fns.values() if f.name == "convert_witness" and "redeem::Redeem>>::decode::" in f.path]
+    import roles
+    readers = roles.methods(F, "decode::DecodeFinalizer", "convert_witness")
     if ev is None or len(readers) != 1:
         rep.anchor("C01.pairing", "encode_value / RedeemNode::decode's convert_witness")
     else:
